@@ -5,4 +5,5 @@ cd "$(dirname "$0")/.."
 unset FINAM_SRC
 /venv/bin/python -W ignore -c "from harness import common; common.regenerate()" || exit 1
 (cd lean && lake build 2>&1 | tail -1 | grep -q "Build completed successfully") || { echo "BUILD FAILED"; (cd lean && lake build 2>&1 | grep -E "^error|✖" | head); exit 1; }
+python3 tools/evcheck.py || { echo "EVIDENCE NOT CLEAN: run tools/runall.sh quick first"; exit 1; }
 git add -A && git commit -qm "$1" && git log --oneline | head -1
